@@ -454,7 +454,11 @@ func crashPostRun(r *Run, res *Result) {
 
 // keepImage stores the witnessing image next to the replay files.
 func keepImage(im *Image, res *Result) {
-	dir := filepath.Join("/verif/replays", fmt.Sprintf("image-%s-%d", res.Check, res.Seed))
+	base := os.Getenv("VERIF_DIR")
+	if base == "" {
+		base = "/verif"
+	}
+	dir := filepath.Join(base, "replays", fmt.Sprintf("image-%s-%d", res.Check, res.Seed))
 	_ = os.RemoveAll(dir)
 	if err := materialize(dir, im, false); err == nil {
 		res.Extra["image_dir"] = dir
